@@ -226,6 +226,9 @@ pub enum DOp {
     Reopen,
     /// db.close + connect + open (clean)
     Reconnect,
+    /// the synchronous, in-memory `set_extension` (persisted by the next flush);
+    /// generated by the concurrent phases only
+    SetExt { key: u8, val: u8 },
     /// close_collection, then open with a different index set: indexes leaving
     /// the set are removed, indexes entering it are created and backfilled
     /// (generated by the sequential phases only)
@@ -417,7 +420,7 @@ impl DocModel {
             (DOp::Remove { id }, Expect::RemoveOk(_)) => {
                 self.docs.remove(id);
             }
-            (DOp::SaveExt { key, val }, Expect::Ok) => {
+            (DOp::SaveExt { key, val }, Expect::Ok) | (DOp::SetExt { key, val }, Expect::Ok) => {
                 self.ext.insert(format!("k{key}"), *val as u64);
             }
             (DOp::RemoveExt { key }, Expect::Ok) => {
